@@ -78,12 +78,16 @@ fn c02_scan_margin() {
     scan_margin(2.5, 3);
 }
 
-/// is_backface on the half-pixel lattice of a 64x64 screen: swapping two
+/// is_backface on the half-pixel lattice of a 4x4 (quick) / 16x16 (thorough) screen: swapping two
 /// vertices flips the answer, rotating them keeps it, and it equals the sign
 /// of the exact integer orientation; degenerate triangles are neither.
 #[kani::proof]
 fn c07_backface_orientation() {
-    let k: [i32; 6] = [int(0, 128), int(0, 128), int(0, 128), int(0, 128), int(0, 128), int(0, 128)];
+    #[cfg(feature = "deep")]
+    const M: i32 = 32;
+    #[cfg(not(feature = "deep"))]
+    const M: i32 = 8;
+    let k: [i32; 6] = [int(0, M), int(0, M), int(0, M), int(0, M), int(0, M), int(0, M)];
     let p = |i: usize| vertex(pt3(k[2 * i] as f32 * 0.5, k[2 * i + 1] as f32 * 0.5, 1.0), ());
     let area2 = (k[2] - k[0]) * (k[5] - k[1]) - (k[3] - k[1]) * (k[4] - k[0]);
     let abc = is_backface(&[p(0), p(1), p(2)]);
